@@ -31,6 +31,7 @@ import (
 	"os/exec"
 	"runtime"
 	"runtime/debug"
+	"sort"
 	"strconv"
 	"strings"
 	"sync"
@@ -324,8 +325,8 @@ type c02Tail struct {
 func (t *c02Tail) Write(p []byte) (int, error) {
 	t.mu.Lock()
 	defer t.mu.Unlock()
-	if len(t.head) < 3000 {
-		k := min(len(p), 3000-len(t.head))
+	if len(t.head) < 12000 {
+		k := min(len(p), 12000-len(t.head))
 		t.head = append(t.head, p[:k]...)
 	}
 	t.tail = append(t.tail, p...)
@@ -385,6 +386,45 @@ type c02Outcome struct {
 	// "memory".
 	Kind   string
 	Detail string
+	// Sig: for a stack overflow, the set of functions on the runaway recursion cycle
+	Sig string
+}
+
+// c02RecursionSig extracts, from the Go runtime's "stack overflow" report, the sorted set of
+// distinct cuelang.org functions among the innermost frames: the recursion cycle. It names
+// the ROOT CAUSE of a runaway recursion independently of the input that triggered it.
+func c02RecursionSig(stderr string) string {
+	if !strings.Contains(stderr, "stack overflow") {
+		return ""
+	}
+	count := map[string]int{}
+	frames := 0
+	for _, line := range strings.Split(stderr, "\n") {
+		if !strings.HasPrefix(line, "cuelang.org/go/") {
+			continue
+		}
+		frames++
+		if frames > 40 {
+			break
+		}
+		fn := line
+		if i := strings.LastIndex(fn, "("); i > 0 {
+			fn = fn[:i]
+		}
+		if i := strings.LastIndex(fn, "/"); i >= 0 {
+			fn = fn[i+1:]
+		}
+		count[fn]++
+	}
+	// functions on the cycle repeat; the leaf in which the stack happened to run out does not
+	var names []string
+	for fn, n := range count {
+		if n >= 2 {
+			names = append(names, fn)
+		}
+	}
+	sort.Strings(names)
+	return strings.Join(names, "+")
 }
 
 // ask sends one request and waits for the answer with a wall-clock deadline.
@@ -450,7 +490,7 @@ wait:
 		case strings.Contains(se, "out of memory") || strings.Contains(se, "cannot allocate memory"):
 			kind = "memory"
 		}
-		return c02Outcome{Kind: kind, Detail: fmt.Sprintf("exit %d: %s", code, c02FirstLines(se, 12))}
+		return c02Outcome{Kind: kind, Detail: fmt.Sprintf("exit %d: %s", code, c02FirstLines(se, 12)), Sig: c02RecursionSig(se)}
 	}
 }
 
@@ -596,12 +636,12 @@ func (pl *c02Pool) Ask(rq *c02Req) c02Outcome {
 }
 
 // AskFresh runs rq in a brand-new process (the "another process" run).
-func (pl *c02Pool) AskFresh(rq *c02Req) c02Outcome {
+func (pl *c02Pool) AskFresh(rq *c02Req, env ...string) c02Outcome {
 	pl.mu.Lock()
 	pl.started++
 	k := pl.started
 	pl.mu.Unlock()
-	p, err := c02Start(fmt.Sprintf("%s/w%d", pl.dir, k))
+	p, err := c02Start(fmt.Sprintf("%s/w%d", pl.dir, k), env...)
 	if err != nil {
 		return c02Outcome{Kind: "crash", Detail: err.Error()}
 	}
